@@ -160,3 +160,72 @@ func TestKnownNaNScore(t *testing.T) {
 		return false, ""
 	})
 }
+
+func TestKnownIncrOverflow(t *testing.T) {
+	known.Probe(t, "C08-incr-wraps-on-overflow", func() (bool, string) {
+		s, err := simkv.New(simkv.Options{Engine: "pebble"})
+		if err != nil {
+			return false, "HARNESS: " + err.Error()
+		}
+		defer s.Close()
+		s.Do("set", "default:t:k", "9223372036854775807")
+		s.Do("hset", "default:t:h", "f", "-9223372036854775808")
+		for _, c := range [][]string{
+			{"incr", "default:t:k"},
+			{"incrby", "default:t:k", "1"},
+			{"incrby", "default:t:k", "9223372036854775807"},
+			{"hincrby", "default:t:h", "f", "-1"},
+		} {
+			if r := s.Do(c...).One(); r.Kind != 'e' {
+				return true, fmt.Sprintf("%q on a value at the end of the int64 range -> %s, want an error (increment or decrement would overflow)", c, r.String())
+			}
+		}
+		for _, st := range []step{
+			{[]string{"get", "default:t:k"}, `"9223372036854775807"`},
+			{[]string{"hget", "default:t:h", "f"}, `"-9223372036854775808"`},
+			{[]string{"incrby", "default:t:k", "-1"}, ":9223372036854775806"},
+			{[]string{"hincrby", "default:t:h", "f", "1"}, ":-9223372036854775807"},
+		} {
+			if got := s.Do(st.cmd...).String(); got != st.want {
+				return true, fmt.Sprintf("%q -> %s, want %s", st.cmd, got, st.want)
+			}
+		}
+		return false, ""
+	})
+}
+
+func scriptPolicy(engine, policy string, steps []step) (bool, string) {
+	s, err := simkv.New(simkv.Options{Engine: engine, ExpPolicy: policy})
+	if err != nil {
+		return false, "HARNESS: " + err.Error()
+	}
+	defer s.Close()
+	for _, st := range steps {
+		got := s.Do(st.cmd...).String()
+		if st.want != "" && got != st.want {
+			return true, fmt.Sprintf("%q -> %s, want %s", st.cmd, got, st.want)
+		}
+	}
+	return false, ""
+}
+
+func TestKnownTTLOfMissingKey(t *testing.T) {
+	known.Probe(t, "C08-ttl-of-missing-key-is-minus-one", func() (bool, string) {
+		return scriptPolicy("pebble", "wait_compact", []step{
+			{[]string{"set", "default:t:k", "v"}, "+OK"},
+			{[]string{"ttl", "default:t:k"}, ":-1"},
+			{[]string{"ttl", "default:t:missing"}, ":-2"},
+			{[]string{"httl", "default:t:missing"}, ":-2"},
+		})
+	})
+}
+
+func TestKnownPersistWithoutExpiry(t *testing.T) {
+	known.Probe(t, "C08-persist-answers-one-without-expiry", func() (bool, string) {
+		return scriptPolicy("pebble", "wait_compact", []step{
+			{[]string{"set", "default:t:k", "v"}, "+OK"},
+			{[]string{"persist", "default:t:k"}, ":0"},
+			{[]string{"persist", "default:t:missing"}, ":0"},
+		})
+	})
+}
